@@ -7,6 +7,7 @@ mkdir -p evidence replays harness/bin extract/bin
 if [ -f extract/main.go ]; then
   (cd extract && go build -o bin/extract . && ./bin/extract -repo "${VERIF_REPO:-/repo}" -out ../lean/DatamonVerif/Generated/Facts.lean)
 fi
+lib/genroot.sh
 (cd lean && lake build DatamonVerif dvdriver DatamonVerif.AuditTool)
 cp "${VERIF_REPO:-/repo}/go.sum" harness/go.sum
 (cd harness && go build -tags verif -o bin/dvh ./cmd/dvh)
